@@ -112,14 +112,14 @@ fn cross_random(ctx: &Ctx, r: &mut Report) {
 	}
 }
 
-struct RevCase {
-	left: usize,
-	right: usize,
-	xs: Vec<f64>,
-	tag: String,
+pub struct RevCase {
+	pub left: usize,
+	pub right: usize,
+	pub xs: Vec<f64>,
+	pub tag: String,
 }
 
-fn check_reversal(c: &RevCase, r: &mut Report) -> bool {
+pub fn check_reversal(c: &RevCase, r: &mut Report) -> bool {
 	let (l, rt) = (c.left as P, c.right as P);
 	let init = c.xs[0] as V;
 	let made = guard(|| (UpperReversalSignal::new(l, rt, &init), LowerReversalSignal::new(l, rt, &init), ReversalSignal::new(l, rt, &init)));
@@ -225,7 +225,7 @@ fn reversal_exhaustive(ctx: &Ctx, r: &mut Report) {
 	r.cell(&format!("reversal:exhaustive-3^{len}"));
 }
 
-fn rev_stream(class: usize, seed: u64, len: usize, n: usize) -> Vec<f64> {
+pub fn rev_stream(class: usize, seed: u64, len: usize, n: usize) -> Vec<f64> {
 	match class {
 		// pivots every ~n steps on an integer grid, with plateaus and equal peaks
 		100 => {
